@@ -366,7 +366,8 @@ def run(chk, prop):
   chk.add_tlc(sub, 'LinenSetup stream-subset lifts (exhaustive, 3 uses)')
   step = 1 if thorough else (3 if prop in ('C05', 'C09') else (5 if prop == 'C01' else 8))
   seen = set()
-  for idx, beh in enumerate(ja['exports'][::step] + sub['exports'][::step] + sim['exports']):
+  sub_step = 1 if prop in ('C05', 'C09') else step      # (the lazily bound grand-child family is small: replayed completely for C05 / C09)
+  for idx, beh in enumerate(ja['exports'][::step] + sub['exports'][::sub_step] + sim['exports']):
     sig = json.dumps(beh, sort_keys=True)
     if sig in seen:
       continue
